@@ -7,9 +7,9 @@
     give the byte machine's loaded values and final memory - for the REPAIRED design (no quirk). Each quirk of
     amoco found this way (and reproduced on the real code) is a named deviation: a configuration with that
     quirk alone must be rejected by TLC; two seeded faults must be rejected too (non-vacuity).
- G  behaviours of the model (exhaustive small, -simulate large) are executed on a real mapper at real sizes
-    (8..64 bits), pointer registers instantiated through  concrete >> symbolic; every loaded register, every
-    byte of the resulting memory and the pointer items of the resulting map are serialised.
+ G  behaviours of the model (exhaustive tiny, sampled small, -simulate large) are executed on a real mapper at
+    real sizes (8..64 bits), pointer registers instantiated through  concrete >> symbolic; every loaded
+    register, every byte of the resulting memory and the pointer items of the resulting map are serialised.
  T  programs drawn by the seeded rng beyond the model's bounds (three pointers, 8 operations, negative offsets).
     All traces are decided by specs/MapperTrace.tla: it runs the byte machine and interprets the logged trees
     (ExprMods!EvalM: a mem with mods is read together with its mods). A failing case is attributed to the
@@ -19,6 +19,8 @@
 import sys
 
 from harness import framework, tlc, c09run
+
+QUIRKS = ("KeyedStores", "AliasKeySize", "MergeLE", "PtrKeyLE", "BottomLE", "EmptyMapShortcut")
 
 
 def run(ctx):
@@ -39,36 +41,36 @@ def run(ctx):
     ctx.assume("under noaliasing the claim is restricted to pointer assignments for which the byte ranges accessed through "
                "different pointer registers are disjoint; with noaliasing and memtrace off memory writes are not kept as "
                "map items (documented), so only loaded values are claimed there")
-    # --- M ------------------------------------------------------------------------------------
-    for cfg in (["MapperMC_quick.cfg", "MapperMC_quick2.cfg", "MapperMC_quick3.cfg"] if quick else
-                ["MapperMC_quick.cfg", "MapperMC_quick2.cfg", "MapperMC_thorough.cfg", "MapperMC_thorough2.cfg",
-                 "MapperMC_thorough3.cfg"]):
-        res = tlc.run("Mapper", cfg, tag="c09mc", timeout=6000)
-        ctx.add_tlc(res, "M:" + cfg)
-    rejected = {}
-    for q in ("KeyedStores", "AliasKeySize", "MergeLE", "PtrKeyLE", "BottomLE", "EmptyMapShortcut"):
-        res = tlc.run("Mapper", "MapperMC_kf_%s.cfg" % q, expect_violation=True, tag="c09kf", timeout=3000, workers=2)
-        if not res.violation or "Correct" not in res.violation:
-            raise tlc.MachineryError("model: quirk %s alone does not violate Correct (the finding is not a finding?)" % q)
-        rejected[q] = [l for l in res.out.splitlines() if l.strip().startswith('<< "')][:1]
-    ctx.note("quirks_rejected_by_model", sorted(rejected))
-    for cfg in ("MapperMC_dev.cfg", "MapperMC_dev2.cfg"):
-        res = tlc.run("Mapper", cfg, expect_violation=True, tag="c09dev", timeout=3000, workers=2)
-        if not res.violation or "Correct" not in res.violation:
-            raise tlc.MachineryError("self-test: seeded fault of %s did not violate Correct (invariant vacuous?)" % cfg)
-    ctx.note("selftest_faults_detected_by_model", ["FaultModsReversed", "FaultAliasLastOnly"])
-    # --- G + T ----------------------------------------------------------------------------------
+    # --- stage 1: every TLC run that does not depend on amoco, in parallel ---------------------------
+    mcs = (["MapperMC_quick.cfg", "MapperMC_quick2.cfg", "MapperMC_quick3.cfg"] if quick else
+           ["MapperMC_quick.cfg", "MapperMC_quick2.cfg", "MapperMC_thorough.cfg", "MapperMC_thorough2.cfg",
+            "MapperMC_thorough3.cfg"])
+    rej = ["MapperMC_kf_%s.cfg" % q for q in QUIRKS] + ["MapperMC_asis.cfg", "MapperMC_dev.cfg", "MapperMC_dev2.cfg"]
     if quick:
-        tr = c09run.generate(ctx, "MapperGen_tiny.cfg", "tiny", limit=120)
-        tr += c09run.generate(ctx, "MapperGen_small.cfg", "small", simulate="num=40", depth=4, limit=160)
-        tr += c09run.generate(ctx, "MapperSim.cfg", "sim", simulate="num=40", depth=7, limit=160)
-        tr += c09run.drive(ctx, 160)
+        gens = [("MapperGen_tiny.cfg", "tiny", None, None, 100), ("MapperGen_small.cfg", "small", "num=40", 4, 120),
+                ("MapperSim.cfg", "sim", "num=40", 7, 120)]
+        nrandom = 120
     else:
-        tr = c09run.generate(ctx, "MapperGen_tiny.cfg", "tiny")          # every behaviour of the tiny model
-        tr += c09run.generate(ctx, "MapperGen_small.cfg", "small", limit=4000)
-        tr += c09run.generate(ctx, "MapperGen_small4.cfg", "small4", limit=2000)
-        tr += c09run.generate(ctx, "MapperSim.cfg", "sim", simulate="num=400", depth=7, limit=3000)
-        tr += c09run.drive(ctx, 3000)
+        gens = [("MapperGen_tiny.cfg", "tiny", None, None, None), ("MapperGen_small.cfg", "small", None, None, 4000),
+                ("MapperGen_small4.cfg", "small4", None, None, 2000), ("MapperSim.cfg", "sim", "num=400", 7, 3000)]
+        nrandom = 3000
+    jobs = [(lambda c=c: tlc.run("Mapper", c, tag="c09mc" + c[9:-4], timeout=12000, workers=None if not quick else 5)) for c in mcs]
+    jobs += [(lambda c=c: tlc.run("Mapper", c, expect_violation=True, tag="c09rej" + c[9:-4], timeout=3000, workers=2)) for c in rej]
+    jobs += [(lambda g=g: c09run.gen_tlc(ctx.seed, g[0], g[1], g[2], g[3], g[4])) for g in gens]
+    out = c09run.parallel(jobs)
+    for c, res in zip(mcs, out[:len(mcs)]):
+        ctx.add_tlc(res, "M:" + c)
+    for c, res in zip(rej, out[len(mcs):len(mcs) + len(rej)]):
+        if not res.violation or "Correct" not in res.violation:
+            raise tlc.MachineryError("model: %s is not rejected by TLC (a finding is not a finding / invariant vacuous?)" % c)
+        ctx.add_tlc(res, "M(rejected):" + c)
+    ctx.note("quirks_rejected_by_model", list(QUIRKS))
+    ctx.note("selftest_faults_detected_by_model", ["FaultModsReversed", "FaultAliasLastOnly"])
+    # --- stage 2: execute on real amoco, stage 3: validate --------------------------------------------
+    tr = []
+    for g, gen in zip(gens, out[len(mcs) + len(rej):]):
+        tr += c09run.replay_generated(ctx, g[0], g[1], gen)
+    tr += c09run.drive(ctx, nrandom)
     c09run.validate(ctx, tr, "all")
     ctx.exhaustive = False
 
